@@ -5,6 +5,7 @@ ID=$1; K=$2; SRC=${3:-/tmp/seed_out/$ID/$K}
 W=/tmp/confirm_$ID_$K_$$
 git -C /repo worktree add -q --detach $W HEAD || exit 9
 cd $W
+export PYTHONPATH=$W      # the demonstration imports the library from the scratch tree, not the installed one
 CLEAN_DEMO=$(/venv/bin/python $SRC/demo.py >/dev/null 2>&1; echo $?)
 git apply $SRC/patch.diff || { echo "patch does not apply"; cd /; git -C /repo worktree remove --force $W; exit 9; }
 TESTS=$(/venv/bin/python -m pytest -q -p no:cacheprovider 2>&1 | tail -1)
